@@ -200,3 +200,35 @@ pub fn execute(case: &Case, opts: ExecOpts, mut instr: Box<dyn Instrument>, fata
     obs.trace = s.trace.take();
     obs
 }
+
+/// a custom single-threaded (root only, unless `f` builds a pool) scenario on the simulated disk
+pub struct CustomOut {
+    pub value: Option<Value>,
+    pub panics: Vec<PanicInfo>,
+    pub stats: Stats,
+    pub recorded: Recorded,
+}
+
+pub fn execute_custom(case: &Case, fatal_fd: i32, f: impl FnOnce(&Case) -> Value + Send + 'static) -> CustomOut {
+    let case = case.clone();
+    let dec = match &case.recorded {
+        Some(r) => Decider::from_recorded(case.seed, r),
+        None => Decider::from_seed(case.seed),
+    };
+    let out = harness::run_in_sim(case.simcfg.clone(), dec, fatal_fd, move || {
+        sim::with(|s| {
+            for (p, d) in case.world.files() {
+                s.put_file(&p, d);
+            }
+        });
+        let r = catch_unwind(AssertUnwindSafe(|| f(&case)));
+        sim::set_quiet(true);
+        (r.ok(), take_panics())
+    });
+    let s = out.sim;
+    let (value, panics) = match out.result {
+        Ok(x) => x,
+        Err(m) => (None, vec![PanicInfo { message: m, location: "harness".into(), thread: String::new() }]),
+    };
+    CustomOut { value, panics, stats: s.stats.clone(), recorded: s.recorded() }
+}
